@@ -584,14 +584,30 @@ func checkRegexPairing(c *Check) {
 		binds, groups := vField(recv, "binds"), vField(recv, "groups")
 		sub := vCall("(*regexp.Regexp).FindStringSubmatch", vField(recv, "regexp"), vParam(fn, 1))
 		var mu *ssa.MapUpdate
+		var others []*ssa.MapUpdate
 		allInstrs(fn, func(in ssa.Instruction) {
 			if x, ok := in.(*ssa.MapUpdate); ok {
-				mu = x
+				if _, isSub := elemIndex(x.Value, sub); isSub || mu == nil {
+					if mu != nil {
+						if _, wasSub := elemIndex(mu.Value, sub); !wasSub {
+							others = append(others, mu)
+						}
+					}
+					mu = x
+				} else {
+					others = append(others, x)
+				}
 			}
 		})
 		if mu == nil {
 			c.Bad(key, p.FuncPos(fn), "no store into params")
 			continue
+		}
+		// every store into params is a sub-match of this segment under its own bind: a shortcut that stores
+		// something else (the whole segment under binds[0], …) is right only for one shape of segment, which the
+		// matcher cannot know from a flag
+		for _, o := range others {
+			c.Bad(key+":other-store", p.Pos(o.Pos()), "the regex matcher also stores "+vstr(o.Value)+" under "+vstr(o.Key)+", not a sub-match of its pattern: for a segment with several binds or literal text the value belongs to no single bind")
 		}
 		ki, okK := elemIndex(mu.Key, binds)
 		gi, okV := elemIndex(mu.Value, sub)
